@@ -150,8 +150,8 @@ def gen_history(rng):
         elif k == 'probe_unstructured':
             emit({'op': 'probe_unstructured'})
         elif k == 'eval':
-            emit({'op': 'eval'})
-    emit({'op': 'eval'})
+            emit({'op': 'eval', 'mode': rng.pick(['full', 'full', 'jac_first', 'res_first'])})
+    emit({'op': 'eval', 'mode': rng.pick(['full', 'jac_first'])})
     return ops
 
 
@@ -256,7 +256,7 @@ class C15(Prop):
                     vv.append(V('c15.duplicate_raises_other', type(e).__name__, repr(e)))
             elif op['op'] == 'eval':
                 evals += 1
-                vv = self.evaluate(h, real, c, nfill)
+                vv = self.evaluate(h, real, c, nfill, mode=op.get('mode', 'full'))
                 h.dirty = False
             else:
                 if op['op'] in ('del', 'cdict_del'):
@@ -279,8 +279,12 @@ class C15(Prop):
         return verdict('violation' if viol else 'ok', viol, c, dig, nontrivial=nt, runs=1, ngrams=grams,
                        sample={'ops': len(kinds), 'first_ops': kinds[:14], 'constraints': len(h.cons), 'vars': len(h.v)})
 
-    def evaluate(self, h, real, c, nfill):
+    def evaluate(self, h, real, c, nfill, mode='full'):
+        """mode: 'full' = set_structure, get_x, residuals, Jacobian;  'jac_first' / 'res_first' = when nothing structural changed
+        since the last set_structure, only values: evaluate the Jacobian (the residuals) directly, the other one afterwards -
+        the documented contract needs set_structure only after structural changes"""
         viol = []
+        was_dirty = h.dirty
         # ---- make the model square with filler constraints (they are ordinary constraints from now on)
         live = h.live_vars()
         nc = len(h.cons)
@@ -308,10 +312,21 @@ class C15(Prop):
             return []
         m = real.m
         try:
-            m.set_structure()
-            x = m.get_x()
-            r = m.evaluate_residuals()
-            J = m.evaluate_jacobian()
+            if h.dirty or was_dirty or mode == 'full':
+                m.set_structure()
+                x = m.get_x()
+                r = m.evaluate_residuals()
+                J = m.evaluate_jacobian()
+            elif mode == 'jac_first':
+                bump(c, 'fired.jacobian_before_residuals_after_value_change')
+                J = m.evaluate_jacobian()
+                r = m.evaluate_residuals()
+                x = m.get_x()
+            else:
+                bump(c, 'fired.residuals_without_set_structure_after_value_change')
+                r = m.evaluate_residuals()
+                J = m.evaluate_jacobian()
+                x = m.get_x()
         except Exception as e:  # noqa
             return [V('c15.evaluate_raises', type(e).__name__, traceback.format_exc()[-700:])]
         bump(c, 'c15.evaluations')
